@@ -21,6 +21,7 @@ static std::vector<float> all_data_of(const std::vector<std::vector<float>>& dat
 enum Kind { KICKY, KICKX, RFLIN, RFSIN, DRIFT, FP3, FP4, IDENT, WAKE, DYNLIN, DYNSIN, NKIND };
 static const char* KN[] = {"KickMap.y", "KickMap.x", "RFKickMap.linear", "RFKickMap.sin", "DriftMap", "FokkerPlanck.3", "FokkerPlanck.4", "Identity", "WakePotentialMap", "DynamicRF.linear", "DynamicRF.sin"};
 
+static bool HIST = false;   // generic kick maps of the multi-bunch side are given two other fields before the one under test
 static int FPT = 3;   // Fokker-Planck variant (0 none, 1 damping only, 2 diffusion only, 3 full) for the FP kinds
 struct Built { std::shared_ptr<SourceMap> m; psptr in, out; std::shared_ptr<ElectricField> f; std::shared_ptr<Impedance> z; };
 
@@ -38,6 +39,12 @@ static Built build(int kind, unsigned n, unsigned nb, unsigned it, int var, cons
     case KICKY: case KICKX: {
         auto km = std::make_shared<KickMap>(B.in, B.out, itt, false, kind == KICKY ? KickMap::Axis::y : KickMap::Axis::x, nullptr);
         std::vector<float> off; for (unsigned b = 0; b < nb; b++) off.insert(off.end(), fields[b].begin(), fields[b].end());
+        if (HIST && nb > 1) {
+            // the map has a past: another full per-bunch field, then a field of one block only (serving the first bunch; what that does to the others is
+            // the caller's business), then the field under test - each bunch is still moved by its own field and by nothing else
+            std::vector<float> other(off.rbegin(), off.rend()); km->swapOffset(other); km->apply();
+            std::vector<float> one(fields[0]); if (kind == KICKY) { km->swapOffset(one); km->apply(); }
+        }
         km->swapOffset(off); B.m = km; break; }
     case RFLIN: B.m = std::make_shared<RFKickMap>(B.in, B.out, angle, 5e8f, itt, false, nullptr); break;
     case RFSIN: {
@@ -104,7 +111,9 @@ int main(int argc, char** argv) {
         set_size(n, nb);
         std::vector<float> multi, wake_multi;
         {
+            HIST = (dv == 1);
             Built B = build(kind, n, nb, it, var % 3, data, fields, buckets, N, spacing);
+            HIST = false;
             B.m->apply();
             multi.assign(B.out->getData(), B.out->getData() + (size_t)n * n * nb);
             if (kind == WAKE) {
